@@ -404,7 +404,7 @@ func init() {
 	})
 	register(&Check{
 		ID:   "C16",
-		Expl: "Decides: (E1b.requires) the ROA table mutators (Add, Delete, DeleteAll) are only called with sharedData.mu held exclusively (the management context), so validation never observes a half-applied RTR update; (E4.decode-produces) every RTR PDU type with a serialiser is built by ParseRTR; (E4.rtr-handled) the handler's type switch covers every PDU type the parser can return; (E2c) the RTR parser never writes its input; (E6.rtr-session-change) the session id is overwritten only after it was compared with the old one and the old session's records purged on change. Also: (E4.confed-pair) the origin-AS switch of Validate names both confederation segment types; (E6.roa-delete-guarded) Delete changes the table only on the true edge of ROA.Equal.",
+		Expl: "Decides: (E1b.requires) the ROA table mutators (Add, Delete, DeleteAll) are only called with sharedData.mu held exclusively (the management context), so validation never observes a half-applied RTR update; (E4.decode-produces) every RTR PDU type with a serialiser is built by ParseRTR; (E4.rtr-handled) the handler's type switch covers every PDU type the parser can return; (E2c) the RTR parser never writes its input; (E6.rtr-session-change) the session id is overwritten only after it was compared with the old one and the old session's records purged on change. Also: (E4.confed-pair) the origin-AS switch of Validate names both confederation segment types; (E6.roa-delete-guarded) Delete changes the table only on the true edge of ROA.Equal. (E4.case-ratchet) against a committed baseline, no switch of the code this property is anchored in has lost a named case.",
 		Not:  "RFC 6811 classification (valid / invalid / not-found), covering-prefix walks and ROA-set equality after PDU sequences are value-level and not decided.",
 		Run: func(c *Ctx) {
 			var req []reqRow
